@@ -394,16 +394,36 @@ func runC40(c *vh.Ctx) {
 		nl = len(linked)
 	}
 	reqs := append([]*baseReq{}, linked[:nl]...)
+	nlinked := len(reqs)
 	reqs = append(reqs, randomRequests(c, c.N(5, 25))...)
-	for _, br := range reqs {
+	// thorough tier: ALL parameter combinations for a seed-dependent third of the requests (at least 8 multi-file
+	// packages among them), twelve sampled combinations plus the fixed ones for the rest
+	full := map[int]bool{}
+	if c.Thorough() {
+		multi := 0
+		for _, i := range r.Perm(len(reqs)) {
+			isMulti := len(reqs[i].toGen) > 1
+			if (isMulti && multi < 8) || len(full) < len(reqs)/3 {
+				full[i] = true
+				if isMulti {
+					multi++
+				}
+			}
+		}
+	}
+	_ = nlinked
+	for ri, br := range reqs {
 		combos := paramCombos(br)
-		if !c.Thorough() {
-			// quick tier: the empty parameter, the three API levels, and a seed-dependent sample of the rest
+		if !full[ri] {
+			// the empty parameter, the three API levels, and a seed-dependent sample of the rest
 			pick := []string{"", "default_api_level=API_OPEN", "default_api_level=API_HYBRID", "default_api_level=API_OPAQUE,annotate_code=true"}
-			for k := 0; k < 2; k++ {
+			for k := 0; k < c.N(2, 12); k++ {
 				pick = append(pick, combos[r.Intn(len(combos))])
 			}
 			combos = pick
+			c.Hist("parameter-combinations:sampled")
+		} else {
+			c.Hist("parameter-combinations:all")
 		}
 		for pi, p := range combos {
 			// single-file requests for every parameter string in the thorough tier, for the first one otherwise
